@@ -115,6 +115,27 @@ type seqRunner struct {
 	dirtyForReopen   bool
 	gcSinceRead      bool
 	aux              interface{} // scratch space of the property-specific callbacks
+	// held: the last few slices Get returned, with a private copy of what they
+	// held then. A returned value belongs to the caller: later calls must not
+	// change it (a map would not).
+	held []heldValue
+}
+
+type heldValue struct {
+	digest []byte
+	got    []byte // the slice as returned, not copied
+	want   []byte // private copy taken at return time
+	step   int
+}
+
+// checkHeld verifies that values returned earlier still read the same.
+func (r *seqRunner) checkHeld(i int, kind string) *Violation {
+	for _, h := range r.held {
+		if !bytes.Equal(h.got, h.want) {
+			return viol("returned-value-changed-later|"+kind+"|", i, "the value Get(%x) returned at step %d was %s then; the same slice reads %s now, after later calls", h.digest, h.step, shortBytes(h.want), shortBytes(h.got))
+		}
+	}
+	return nil
 }
 
 var digitsRE = regexp.MustCompile(`[0-9]+`)
@@ -408,6 +429,15 @@ func (r *seqRunner) checkGet(i int, kind string, op Op) *Violation {
 			sym = "other-keys-value"
 		}
 		return viol("get-mismatch|"+kind+"|"+sym, i, "Get(%x) = %s, model has %s", ks.Digest, shortBytes(got), shortBytes(want))
+	}
+	if v := r.checkHeld(i, kind); v != nil {
+		return v
+	}
+	if found && len(got) > 0 {
+		r.held = append(r.held, heldValue{digest: ks.Digest, got: got, want: append([]byte{}, got...), step: i})
+		if len(r.held) > 8 {
+			r.held = r.held[1:]
+		}
 	}
 	return nil
 }
